@@ -21,3 +21,11 @@ package cloudblob
 //@   assert at call OnCreated#1@5ad31d69.1: sc.n > old(sc.n) && sc.ret0[sc.n - 1] && sc.arg1[sc.n - 1] == iface(callarg1.MetaData.Source)
 //@   assert at call OnUpdated#1@b7304af4.1: sc.n > old(sc.n) && !sc.ret0[sc.n - 1] && sc.arg1[sc.n - 1] == iface(callarg1.MetaData.Source) && beq.n > old(beq.n) && !beq.ret0[beq.n - 1] && beq.arg1[beq.n - 1] == callarg1.Hash
 //@   assert at call OnDeleted#1@c98cf5d3.1: callarg1 != nil && len(callarg1.Rules) == 0
+
+// C07 "concurrent changes ... all take effect (none is lost or half overwritten)": one run of
+// watchChanges looks the state of its source up and acts on it afterwards; runs for one source must
+// not overlap, which is what the scheduler's singleton mode (a run that is due while the previous
+// one is still busy is rescheduled - gocron's documented behaviour, trusted) is configured for.
+//@ func newProvider
+//@   props C07
+//@   callsites WithSingletonMode 1
